@@ -1,11 +1,13 @@
 #!/bin/bash
 # tools/sweep.sh <tier> <seed>...   run every claimed check with each seed; print one line per (property, seed)
 tier="$1"; shift
+bad=0
 cd "$(dirname "$0")/.."
 for seed in "$@"; do
   for p in C01 C02 C04 C05 C06 C07 C08 C09 C10 C11 C12 C13 C14 C15 C16 C17 C18 C19 C20; do
     out=$(VERIF_SEED=$seed ./verif.sh check $p $tier 2>&1); rc=$?
     echo "seed=$seed $p exit=$rc $(echo "$out" | grep -c KNOWN-FINDING) known; $(echo "$out" | tail -1 | cut -c1-150)"
-    [ $rc -ne 0 ] && echo "$out" | grep -v "^  step" | cut -c1-600 | head -20
+    if [ $rc -ne 0 ]; then bad=1; echo "$out" | grep -v "^  step" | cut -c1-600 | head -20; fi
   done
 done
+exit $bad
